@@ -221,6 +221,7 @@ impl EnumMonitor {
         let mut expected = 1.0f64;
         let mut all_one = true;
         let mut any_zero = false;
+        let mut weights: Vec<f32> = Vec::with_capacity(v.combos.len());
         for (i, p) in v.combos.iter().enumerate() {
             for c in [p.0, p.1] {
                 if mask & (1 << c) != 0 {
@@ -233,6 +234,7 @@ impl EnumMonitor {
             }
             match self.range_maps.get(i).and_then(|m| m.get(p)) {
                 Some(w) => {
+                    weights.push(*w);
                     expected *= *w as f64;
                     if *w != 1.0 {
                         all_one = false;
@@ -255,10 +257,23 @@ impl EnumMonitor {
         } else if any_zero {
             v.prob == 0.0
         } else {
-            (got - expected).abs() <= 1e-5 * expected.abs() + 1e-44
+            // up to four players: the probability must be one of the f32 values some order and grouping
+            // of the multiplications gives (exactly w for one player, w0*w1 for two); beyond: relative 1e-6
+            let mut left_to_right = 1.0f32;
+            for w in &weights {
+                left_to_right *= *w;
+            }
+            if v.prob.to_bits() == left_to_right.to_bits() {
+                true
+            } else {
+                match crate::refmodel::enumerate::possible_products(&weights) {
+                    Some(set) if weights.len() == v.combos.len() => set.contains(&v.prob.to_bits()),
+                    _ => (got - expected).abs() <= 1e-6 * expected.abs() + 1e-44,
+                }
+            }
         };
         if !ok {
-            self.problem("probability", format!("probability {} but the weights multiply to {}: {}", v.prob, expected, text()));
+            self.problem("probability", format!("probability {} ({:08x}) but the weights {:?} multiply to {}: {}", v.prob, v.prob.to_bits(), weights, expected, text()));
         }
         // per-player views must repeat the same board and hole cards
         for (i, pl) in sd.players().iter().enumerate() {
